@@ -221,6 +221,16 @@ def _lib():
     return pfa, truncate_precomputed_stats_file, merge_precompute_files, read_precomputed_stats, TaxonomyTree
 
 
+def part_file_path(d, tag, fi, part):
+    """files of one layout either sit side by side under distinct names, or (layout 'same_names') carry the
+    same base name in one directory per file, as per-donor exports do"""
+    if part.get('same_names'):
+        sub = d / f'{tag}_donor{fi}'
+        sub.mkdir(exist_ok=True)
+        return sub / 'expression.h5ad'
+    return d / f'{tag}_f{fi}.h5ad'
+
+
 def write_part_files(d, tag, part, spec, lab, x):
     paths = []
     for fi, f in enumerate(part['files']):
@@ -233,7 +243,7 @@ def write_part_files(d, tag, part, spec, lab, x):
                 for lv in lab.h:
                     obs_cols[lv].append(path[lv])
             obs_cols['unrelated'] = [f'u{k % 3}' for k in range(len(rows))]
-        p = d / f'{tag}_f{fi}.h5ad'
+        p = part_file_path(d, tag, fi, part)
         with quiet():
             materialize.write_h5ad(p, x[rows], [lab.cells[i] for i in rows], spec['genes'], enc=f['enc'], obs_cols=obs_cols)
         paths.append(p)
@@ -492,6 +502,8 @@ def check(spec):
             classes.append('route_' + part['route'])
             if part.get('copy_data_over') and part['route'] == 'tree':
                 classes.append('copy_data_over')
+            if part.get('same_names') and len(part['files']) > 1:
+                classes.append('same_base_name_in_several_directories')
             if len(part['files']) > 1:
                 classes.append('multi_file')
             if part['route'] == 'tree' and any(not (set(f['rows']) & named) for f in part['files']):
@@ -592,7 +604,7 @@ def check_merge(d, spec, lab, cv, rel, x, info, classes, merge, paths0):
     if pi == 0:
         paths = paths0
     else:
-        paths = [d / f'p{pi}_f{fi}.h5ad' for fi in range(len(part['files']))]
+        paths = [part_file_path(d, f'p{pi}', fi, part) for fi in range(len(part['files']))]
     ds_of = spec['datasets']
     ds_ids = sorted({ds_of[i] for i in lab.lab_idx})
     ds_paths, ds_groups = [], []
